@@ -126,7 +126,7 @@ def modelledFns : List String :=
    "abs", "ceiling", "floor", "truncate",
    "toString", "toInteger", "toDecimal", "toBoolean", "convertsToString", "convertsToInteger", "convertsToDecimal", "convertsToBoolean",
    "toDate", "toDateTime", "toTime", "toQuantity", "convertsToDate", "convertsToDateTime", "convertsToTime", "convertsToQuantity",
-   "upper", "lower", "round", "now", "today", "timeOfDay", "join"]
+   "upper", "lower", "round", "now", "today", "timeOfDay", "join", "power"]
 
 def argCount : Ex → Nat
   | .argCons _ r => argCount r + 1
@@ -319,6 +319,20 @@ def joinOn (d : List UInt8) (input : List Val) : Res (List Val) :=
     if input.all (fun v => (strBytes? v).isSome) then .ok [.str (joinBytes d (input.filterMap strBytes?))]
     else .err "not-a-string"
 
+/-- `powInt32` (impl/math.go) behind `power()` on two Integers: bases 0, 1, -1 by cases; any other base leaves the
+    Integer range after at most 31 multiplications, so a larger exponent is answered without computing the power -/
+def powInt (b e : Int) : Option Int :=
+  if b = 0 then (if e = 0 then some 1 else some 0)
+  else if b = 1 then some 1
+  else if b = -1 then (if e % 2 = 0 then some 1 else some (-1))
+  else if e > 31 then none
+  else let r := b ^ e.toNat; if r > maxInt32 ∨ r < minInt32 then none else some r
+
+/-- `Power` on two Integers: a negative exponent gives the Integer 0 (as the implementation has it), a result
+    outside the Integer range gives empty -/
+def powVal (b e : Int) : List Val :=
+  if e < 0 then [.int 0] else match powInt b e with | some r => [.int r] | none => []
+
 def anyIs (b : Bool) (input : List Val) : Bool := input.any (· == .bool b)
 
 /-- `Name()` of a System value -/
@@ -453,6 +467,13 @@ def apply1 (name : String) (a : Ev) (input : List Val) : Res (List Val) :=
     onString input fun s => (a input).bind fun av => intArg1 av fun st =>
       .ok (match substring s st none with | some r => [strVal r] | none => [])
   | "join" => if input.isEmpty then .ok [] else (a input).bind fun av => (toStr av).bind fun d => joinOn d input
+  | "power" =>
+    -- Integer base and Integer exponent only; every other pair of numbers goes through float64 (`math.Pow`), not modelled
+    if input.isEmpty then .ok [] else (a input).bind fun av =>
+      if av.isEmpty then .ok [] else
+      match input.head?, av.head? with
+      | some (.int _), some (.int _) => (toInt32 input).bind fun b => (toInt32 av).bind fun e => .ok (powVal b e)
+      | _, _ => .err "UNMODELLED"
   | "round" =>
     (match input with
      | [] => .ok []
